@@ -454,7 +454,7 @@ def run(prop, tier, seed, replay=None, jobs=None, keep=False):
         print("%d violation(s), %d distinct (mechanism, case)" % (len(new), len(shown)))
         return 1
     reasons = []
-    if missing:
+    if missing and not replay:
         reasons.append("deciding monitors never evaluated: %s" % missing)
     if unreached:
         reasons.append("anchors never reached: %s" % unreached)
